@@ -28,6 +28,8 @@ from pysmt.exceptions import PysmtException
 import common
 import wire
 
+sys.setrecursionlimit(50000)        # left-deep chains of a few thousand nodes (BVRepeat(x, 2049), 300-ary BVAdd)
+
 LEAN_MODULES = ["PySMT.Props.C03", "PySMT.Props.Bridge"]
 RULE = ("exhaustive grids, nothing sampled: (A) create_node on each of the 66 node types x every argument-sort tuple over a "
         "14-sort universe {Bool,Int,Real,String,BV1,BV2,BV8,Array Int Int,Array BV2 Bool,Array Int (Array Int Real),S,"
@@ -136,7 +138,12 @@ def canon_sort(s):
     return s
 
 
-def canon_raw(t):
+def canon_raw(t, memo=None):
+    if memo is None:
+        memo = {}
+    k = id(t)
+    if k in memo:
+        return memo[k]
     o, p, ch = t
     if p is not None:
         if p[0] == "y":
@@ -145,13 +152,20 @@ def canon_raw(t):
             p = ("t", canon_sort(p[1]))
         elif p[0] == "Q":
             p = ("Q",) + tuple((n_, canon_sort(t_)) for n_, t_ in p[1:])
-    return (o, p, tuple(canon_raw(c) for c in ch))
+    r = (o, p, tuple(canon_raw(c, memo) for c in ch))
+    memo[k] = r
+    return r
 
 
-def sorts_of_raw(t, acc=None):
+def sorts_of_raw(t, acc=None, seen=None):
     """every sort mentioned in a raw tree"""
     if acc is None:
         acc = set()
+    if seen is None:
+        seen = set()
+    if id(t) in seen:
+        return acc
+    seen.add(id(t))
     o, p, ch = t
     if p is not None:
         if p[0] == "y":
@@ -162,7 +176,7 @@ def sorts_of_raw(t, acc=None):
             for _, t_ in p[1:]:
                 sorts_in(t_, acc)
     for c in ch:
-        sorts_of_raw(c, acc)
+        sorts_of_raw(c, acc, seen)
     return acc
 
 
@@ -350,17 +364,19 @@ def enc_payload(p):
 
 
 def enc_raw(t):
-    """wire encoding of a raw tree (DAG, structural de-duplication)"""
+    """wire encoding of a raw tree (DAG; leaves de-duplicated structurally, inner nodes by object --
+    hashing a deep nested tuple costs its size)"""
     idx = {}
     defs = []
 
     def go(n):
-        if n in idx:
-            return idx[n]
+        k = n if not n[2] else id(n)
+        if k in idx:
+            return idx[k]
         ch = [go(c) for c in n[2]]
         defs.append("%s %s %d%s" % (n[0], enc_payload(n[1]), len(ch), "".join(" %d" % c for c in ch)))
-        idx[n] = len(defs) - 1
-        return idx[n]
+        idx[k] = len(defs) - 1
+        return idx[k]
     go(t)
     return "T %d %s" % (len(defs), " ".join(defs))
 
@@ -522,15 +538,16 @@ def rank(o, p, ss):
 
 
 def sort_of(t, memo=None):
-    """sort of a raw tree by the rules, None if ill-sorted"""
+    """sort of a raw tree by the rules, None if ill-sorted (memo by object: see enc_raw)"""
     if memo is None:
         memo = {}
-    if t in memo:
-        return memo[t]
+    k = t if not t[2] else id(t)
+    if k in memo:
+        return memo[k]
     o, p, ch = t
     ss = [sort_of(c, memo) for c in ch]
     r = None if any(s is None for s in ss) else rank(o, p, ss)
-    memo[t] = r
+    memo[k] = r
     return r
 
 
@@ -1339,7 +1356,7 @@ def repeated_tuples(n, others):
 def grid_b_cases(name, tier):
     seen = set()
     for gen_ in (grid_b_cases_distinct, grid_b_cases_repeated, grid_b_cases_constants, grid_b_cases_confusable,
-                 grid_b_cases_binders):
+                 grid_b_cases_binders, grid_b_cases_large):
         for c in gen_(name, tier):
             if c not in seen:
                 seen.add(c)
@@ -1432,6 +1449,65 @@ def grid_b_cases_confusable(name, tier):
                 yield (d,), (idx, None)
                 for k in (int_t(1), arg_sym(1, ("C", "Int"))):
                     yield (d,), (idx, ((k, int_t(5)),))
+
+
+WIDE = [V(w_) for w_ in (63, 64, 65, 127, 128, 129, 300)]
+for _s in WIDE:
+    SNAME[_s] = "BV%d" % _s[1]
+LINEAR_NARY = ["And", "Or", "Plus", "Times", "BVAnd", "BVOr", "BVAdd", "BVMul", "BVConcat", "StrConcat", "Min", "Max",
+               "MinBV", "MaxBV"]
+QUADRATIC_NARY = ["AtMostOne", "ExactlyOne", "AllDifferent"]
+REPEAT_COUNTS = [63, 64, 65, 66, 67, 127, 128, 129, 130, 131, 255, 256, 257, 258, 999, 1000, 1001, 2049]
+
+
+def grid_b_cases_large(name, tier):
+    """extreme but legal sizes: repetition counts / extension amounts / rotation steps in the hundreds and
+    thousands, bit-vectors of width 63..65, 127..129, 300, n-ary constructors with hundreds of arguments"""
+    if name == "BVRepeat":
+        for s_ in (V(1), V(8), V(64)) if True else ():
+            if s_ not in SNAME:
+                SNAME[s_] = "BV%d" % s_[1]
+            for k in REPEAT_COUNTS:
+                yield arg_syms((s_,)), (k,)
+        for s_ in (B, I, A(I, I)):
+            for k in (65, 1000):
+                yield arg_syms((s_,)), (k,)
+    if name in ("BVZExt", "BVSExt"):
+        for s_ in [V(1), V(8)] + WIDE + [I]:
+            for k in (63, 64, 100, 255, 256, 1000, 4096):
+                yield arg_syms((s_,)), (k,)
+    if name in ("BVRol", "BVRor"):
+        for s_ in [V(8)] + WIDE:
+            w = s_[1]
+            for k in sorted({63, 64, 65, 100, 255, 300, 301, 1000, w - 1, w, w + 1}):
+                yield arg_syms((s_,)), (k,)
+    if name == "BVExtract":
+        for s_ in WIDE:
+            w = s_[1]
+            for st, en in ((0, w - 1), (0, w), (w - 1, w - 1), (w, w), (1, w - 2), (w // 2, w // 2 - 1), (63, 64), (0, 63)):
+                yield arg_syms((s_,)), (st, en)
+    if name in ("BVLShl", "BVLShr", "BVAShr"):
+        for s_ in WIDE:
+            w = s_[1]
+            for k in (0, w, 2 ** w - 1, 2 ** w):
+                yield arg_syms((s_,)), (k,)
+    if name in UN_CTORS:
+        for s_ in WIDE:
+            yield arg_syms((s_,)), ()
+    if name in BIN_CTORS:
+        for s_ in WIDE:
+            for t_ in WIDE + [V(8), I]:
+                yield arg_syms((s_, t_)), ()
+    if name in LINEAR_NARY or name in QUADRATIC_NARY:
+        ns = (100, 300) if name in LINEAR_NARY else (40,)
+        signs = [(False,), (True,)] if name in ("MinBV", "MaxBV") else [()]
+        for ex in signs:
+            for n_ in ns:
+                for s_ in (B, I, R, S, V(8), V(64)):
+                    if s_ not in SNAME:
+                        SNAME[s_] = "BV%d" % s_[1]
+                    yield arg_syms((s_,) * n_), ex                      # n arguments of one sort
+                    yield arg_syms((s_,) * (n_ - 1) + (A(I, I),)), ex   # ... and a last one of another sort
 
 
 def grid_b_cases_binders(name, tier):
@@ -1639,12 +1715,37 @@ def predicted(name, args, extra):
     return ("tree", t)
 
 
-def has_fn_term(t):
+def lean_cost(t, memo=None):
+    """(size, cost) of evaluating wt/noF06/wtRaw on the Lean side: the model works on TREES (a shared
+    sub-term is evaluated once per occurrence) and recomputes the children's types at every level"""
+    if memo is None:
+        memo = {}
+    k = t if not t[2] else id(t)
+    if k not in memo:
+        size, cost = 1, 0
+        for c in t[2]:
+            s_, c_ = lean_cost(c, memo)
+            size += s_
+            cost += c_
+        memo[k] = (size, cost + size)
+    return memo[k]
+
+
+def has_fn_term(t, seen=None):
     """does a function-typed symbol occur in term position (outside the model's fragment)"""
+    if seen is None:
+        seen = set()
+    if id(t) in seen:
+        return False
+    seen.add(id(t))
     o, p, ch = t
     if o == "symbol" and is_fn(p[2]):
         return True
-    return any(has_fn_term(c) for c in ch)
+    return any(has_fn_term(c, seen) for c in ch)
+
+
+def is_deep_case(name, extra):
+    return name == "BVRepeat" and type(extra[0]) is int and extra[0] > 300
 
 
 def run_grid_b_ctor(job):
@@ -1671,10 +1772,13 @@ def run_grid_b_ctor(job):
                 ty = from_pysmt(env.stc.get_type(f))
             except Exception as e:          # noqa
                 ty = "get_type:" + type(e).__name__
-            try:
-                raw = raw_of_fnode(f)
-            except wire.OutOfFragment:
-                raw = "out-of-fragment"
+            if is_deep_case(name, extra):
+                raw = "deep"            # chains of a thousand nodes: type and outcome are judged, not the structure
+            else:
+                try:
+                    raw = raw_of_fnode(f)
+                except wire.OutOfFragment:
+                    raw = "out-of-fragment"
             res = ("ok", ty)
         out.append((args, extra, res, raw))
     return out
@@ -2019,7 +2123,8 @@ def judge_grid_b(ctx, judge, name, results):
         ss = [a[1][2] if a[0] == "symbol" else sort_of(a) for a in args]
         impl_ok = res[0] == "ok"
         impl_ty = res[1] if impl_ok else None
-        pred = predicted(name, args, extra)
+        deep = is_deep_case(name, extra)
+        pred = ("deep",) if deep else predicted(name, args, extra)
         rk = crank(name, ss, (is_const(args[1]),) if name == "Pow" else extra)
         shape = classify_ctor(name, args, extra, pred)
         key = ("B", name, ",".join(show_raw(a) for a in args), extra_key(extra))
@@ -2074,6 +2179,9 @@ def judge_grid_b(ctx, judge, name, results):
                          "%s on (%s)%s raised %s; the rules give %r" % (name, sorts_key(ss), extra_key(extra), res[1], rk),
                          replay)
         # ---- K
+        if deep:
+            ctx.count("B_deep_chain_judged_by_rank_only")
+            continue
         if pred[0] == "reject":
             ctx.count("B_ctor_check")
             if impl_ok:
@@ -2111,6 +2219,9 @@ def judge_grid_b(ctx, judge, name, results):
             continue
         if outside_model(tree):
             ctx.count("B_k_skipped_homonymous_sorts")
+            continue
+        if lean_cost(tree)[1] > 60000:
+            ctx.count("B_k_skipped_huge_term")       # structure and sort are still compared (above)
             continue
 
         def cont(chk, line, tree=tree, impl_ok=impl_ok, impl_ty=impl_ty, replay=replay, name=name):
